@@ -239,8 +239,8 @@ package spdxexp
 //@ func scan
 //@   modifies nothing
 //@   ghostlet orig = expression
-//@   ensures[C05] lexOK: !isErr(result1) ==> endK(expression, len(result0)) && noStopBefore(expression, len(result0)) && forall j :: 0 <= j && j < len(result0) ==> result0[j].role == tokRoleK(expression, j) && result0[j].value == tokValK(expression, j)
-//@   ensures[C05] lexFail: isErr(result1) ==> exists k :: 0 <= k && errK(expression, k) && noStopBefore(expression, k)
+//@   ensures[C05,grp=lex,grp=toks] lexOK: !isErr(result1) ==> endK(expression, len(result0)) && noStopBefore(expression, len(result0)) && forall j :: 0 <= j && j < len(result0) ==> result0[j].role == tokRoleK(expression, j) && result0[j].value == tokValK(expression, j)
+//@   ensures[C05,grp=lex] lexFail: isErr(result1) ==> exists k :: 0 <= k && errK(expression, k) && noStopBefore(expression, k)
 //@   defines[C05] !isErr(result1) <==> Lexable(expression)
 //@   defines[C05] !isErr(result1) ==> len(result0) == TokLen(expression) && elems(result0) == TokSeq(expression)
 //@   ensures[C06,C07] !isErr(result1) ==> okToks(result0)
@@ -249,17 +249,17 @@ package spdxexp
 //@     invariant[C03] tokens == nil || fresh(tokens)
 //@     invariant[C05,C15] rel(exp, orig) && !isErr(exp.err)
 //@     invariant[C06,C07] okToks(tokens)
-//@     invariant[C05] lexState(exp, orig, len(tokens)) && !spaceBefore(exp)
-//@     invariant[C05] forall j :: 0 <= j && j < len(tokens) ==> tokens[j].role == tokRoleK(orig, j) && tokens[j].value == tokValK(orig, j)
-//@     invariant[C05] noStopBefore(orig, len(tokens))
-//@   assert[C05] after append#0: lastTok: len(ret) == len(tokens) + 1 && ret[len(tokens)].role == tokRoleK(orig, len(tokens)) && ret[len(tokens)].value == tokValK(orig, len(tokens))
-//@   assert[C05] after (*expressionStream).skipWhitespace#0: skipPend: pendK(orig, len(tokens)) ==> pend(exp, orig) && exp.index + exp.removed + 1 == posK(orig, len(tokens)) && !spaceBefore(exp)
-//@   assert[C05] after (*expressionStream).skipWhitespace#0: skipSync: !pendK(orig, len(tokens)) ==> syncd(exp, orig) && exp.index + exp.removed == skipTo(orig, posK(orig, len(tokens)))
-//@   assert[C05] after (*expressionStream).skipWhitespace#0: skipSpace: !pendK(orig, len(tokens)) ==> (spaceBefore(exp) <==> runLen(orig[posK(orig, len(tokens)):], "space") > 0)
-//@   assert[C05] after (*expressionStream).skipWhitespace#0: endSeen: exp.index >= len(exp.expression) ==> endK(orig, len(tokens))
-//@   assert[C05] call (*expressionStream).parseToken#0: notEnd: !endK(orig, len(tokens))
-//@   assert[C05] after (*expressionStream).parseToken#0: stepFails: isErr(exp.err) ==> errK(orig, len(tokens))
-//@   assert[C05] after (*expressionStream).parseToken#0: stepDone: !isErr(exp.err) ==> ret != nil && ret.role == tokRoleK(orig, len(tokens)) && ret.value == tokValK(orig, len(tokens)) && !errK(orig, len(tokens)) && lexState(exp, orig, len(tokens) + 1) && !spaceBefore(exp)
+//@     invariant[C05,scoped,grp=lex] lexState(exp, orig, len(tokens)) && !spaceBefore(exp)
+//@     invariant[C05,scoped,grp=toks] forall j :: 0 <= j && j < len(tokens) ==> tokens[j].role == tokRoleK(orig, j) && tokens[j].value == tokValK(orig, j)
+//@     invariant[C05,scoped,grp=lex] noStopBefore(orig, len(tokens))
+//@   assert[C05,grp=lex] after append#0: lastTok: len(ret) == len(tokens) + 1 && ret[len(tokens)].role == tokRoleK(orig, len(tokens)) && ret[len(tokens)].value == tokValK(orig, len(tokens))
+//@   assert[C05,scoped,grp=lex] after (*expressionStream).skipWhitespace#0: skipPend: pendK(orig, len(tokens)) ==> pend(exp, orig) && exp.index + exp.removed + 1 == posK(orig, len(tokens)) && !spaceBefore(exp)
+//@   assert[C05,scoped,grp=lex] after (*expressionStream).skipWhitespace#0: skipSync: !pendK(orig, len(tokens)) ==> syncd(exp, orig) && exp.index + exp.removed == skipTo(orig, posK(orig, len(tokens)))
+//@   assert[C05,scoped,grp=lex] after (*expressionStream).skipWhitespace#0: skipSpace: !pendK(orig, len(tokens)) ==> (spaceBefore(exp) <==> runLen(orig[posK(orig, len(tokens)):], "space") > 0)
+//@   assert[C05,scoped,grp=lex] after (*expressionStream).skipWhitespace#0: endSeen: exp.index >= len(exp.expression) ==> endK(orig, len(tokens))
+//@   assert[C05,scoped,grp=lex] call (*expressionStream).parseToken#0: notEnd: !endK(orig, len(tokens))
+//@   assert[C05,scoped,grp=lex] after (*expressionStream).parseToken#0: stepFails: isErr(exp.err) ==> errK(orig, len(tokens))
+//@   assert[C05,scoped,grp=lex] after (*expressionStream).parseToken#0: stepDone: !isErr(exp.err) ==> ret != nil && ret.role == tokRoleK(orig, len(tokens)) && ret.value == tokValK(orig, len(tokens)) && !errK(orig, len(tokens)) && lexState(exp, orig, len(tokens) + 1) && !spaceBefore(exp)
 //@ end
 
 //@ func (*expressionStream).parseToken
@@ -270,11 +270,11 @@ package spdxexp
 //@   ensures[C03] okExp(exp)
 //@   ensures[C05,C15] !isErr(exp.err) ==> rel(exp, orig) && exp.index > old(exp.index) - 9
 //@   ensures[C06,C07] !isErr(exp.err) && result != nil ==> okTok(result)
-//@   ensures[C05] tokPend: old(pend(exp, orig)) && old(!spaceBefore(exp)) ==> !isErr(exp.err) && result != nil && result.role == 0 && result.value == "+" && syncd(exp, orig) && exp.index + exp.removed == old(exp.index + exp.removed) + 1
-//@   ensures[C05] tokErr: old(syncd(exp, orig)) ==> (isErr(exp.err) <==> stepErr(orig, old(exp.index + exp.removed), old(spaceBefore(exp))))
-//@   ensures[C05] tokVal: old(syncd(exp, orig)) && !isErr(exp.err) ==> result != nil && result.role == stepRole(orig, old(exp.index + exp.removed)) && result.value == stepVal(orig, old(exp.index + exp.removed))
-//@   ensures[C05] tokNext: old(syncd(exp, orig)) && !isErr(exp.err) ==> ite(stepPend(orig, old(exp.index + exp.removed)), pend(exp, orig) && exp.index + exp.removed + 1 == stepNext(orig, old(exp.index + exp.removed)), syncd(exp, orig) && exp.index + exp.removed == stepNext(orig, old(exp.index + exp.removed)))
-//@   ensures[C05] noSpace: !isErr(exp.err) ==> !spaceBefore(exp)
+//@   ensures[C05,scoped,grp=lex] tokPend: old(pend(exp, orig)) && old(!spaceBefore(exp)) ==> !isErr(exp.err) && result != nil && result.role == 0 && result.value == "+" && syncd(exp, orig) && exp.index + exp.removed == old(exp.index + exp.removed) + 1
+//@   ensures[C05,scoped,grp=lex] tokErr: old(syncd(exp, orig)) ==> (isErr(exp.err) <==> stepErr(orig, old(exp.index + exp.removed), old(spaceBefore(exp))))
+//@   ensures[C05,scoped,grp=lex] tokVal: old(syncd(exp, orig)) && !isErr(exp.err) ==> result != nil && result.role == stepRole(orig, old(exp.index + exp.removed)) && result.value == stepVal(orig, old(exp.index + exp.removed))
+//@   ensures[C05,scoped,grp=lex] tokNext: old(syncd(exp, orig)) && !isErr(exp.err) ==> ite(stepPend(orig, old(exp.index + exp.removed)), pend(exp, orig) && exp.index + exp.removed + 1 == stepNext(orig, old(exp.index + exp.removed)), syncd(exp, orig) && exp.index + exp.removed == stepNext(orig, old(exp.index + exp.removed)))
+//@   ensures[C05,scoped,grp=lex] noSpace: !isErr(exp.err) ==> !spaceBefore(exp)
 //@ end
 
 //@ func (*expressionStream).readOperator
@@ -417,9 +417,9 @@ package spdxexp
 // (active / exception) id carrying -only or -or-later, or is followed by '+' and its -or-later form is listed
 // no two entries of one list are equal up to letter case: a table hypothesis, decided by the ground evaluator
 // (foldUnique) on the literals of the current tree on every run of the checks that use it
-//@ axiom forall i int, j int {ActiveSeq()[i], ActiveSeq()[j]} :: 0 <= i && i < ActiveLen() && 0 <= j && j < ActiveLen() && EqualFold(ActiveSeq()[i], ActiveSeq()[j]) ==> i == j
-//@ axiom forall i int, j int {ExceptionSeq()[i], ExceptionSeq()[j]} :: 0 <= i && i < ExceptionLen() && 0 <= j && j < ExceptionLen() && EqualFold(ExceptionSeq()[i], ExceptionSeq()[j]) ==> i == j
-//@ axiom forall i int, j int {DeprecatedSeq()[i], DeprecatedSeq()[j]} :: 0 <= i && i < DeprecatedLen() && 0 <= j && j < DeprecatedLen() && EqualFold(DeprecatedSeq()[i], DeprecatedSeq()[j]) ==> i == j
+//@ axiom[reveal=Lookup|normalizeLicense|inLicenseList] forall i int, j int {ActiveSeq()[i], ActiveSeq()[j]} :: 0 <= i && i < ActiveLen() && 0 <= j && j < ActiveLen() && EqualFold(ActiveSeq()[i], ActiveSeq()[j]) ==> i == j
+//@ axiom[reveal=Lookup|normalizeLicense|inLicenseList] forall i int, j int {ExceptionSeq()[i], ExceptionSeq()[j]} :: 0 <= i && i < ExceptionLen() && 0 <= j && j < ExceptionLen() && EqualFold(ExceptionSeq()[i], ExceptionSeq()[j]) ==> i == j
+//@ axiom[reveal=Lookup|normalizeLicense|inLicenseList] forall i int, j int {DeprecatedSeq()[i], DeprecatedSeq()[j]} :: 0 <= i && i < DeprecatedLen() && 0 <= j && j < DeprecatedLen() && EqualFold(DeprecatedSeq()[i], DeprecatedSeq()[j]) ==> i == j
 // the canonical (list) spelling of a listed id
 //@ pred canonAct(id string) = ActiveSeq()[foldw(ActiveSeq(), ActiveLen(), id)]
 //@ pred canonExc(id string) = ExceptionSeq()[foldw(ExceptionSeq(), ExceptionLen(), id)]
@@ -508,10 +508,10 @@ package spdxexp
 //@ axiom forall x string {EqualFold(x, x)} :: EqualFold(x, x)
 // only the empty string folds to the empty string (assumed about strings.EqualFold); no listed id is empty (table
 // hypothesis, ground-evaluated on every run: noEmptyId)
-//@ axiom forall x string {EqualFold(x, "")} :: EqualFold(x, "") ==> x == ""
-//@ axiom forall k int {ActiveSeq()[k]} :: 0 <= k && k < ActiveLen() ==> ActiveSeq()[k] != ""
-//@ axiom forall k int {ExceptionSeq()[k]} :: 0 <= k && k < ExceptionLen() ==> ExceptionSeq()[k] != ""
-//@ axiom forall k int {DeprecatedSeq()[k]} :: 0 <= k && k < DeprecatedLen() ==> DeprecatedSeq()[k] != ""
+//@ axiom[reveal=normalizeLicense] forall x string {EqualFold(x, "")} :: EqualFold(x, "") ==> x == ""
+//@ axiom[reveal=normalizeLicense] forall k int {ActiveSeq()[k]} :: 0 <= k && k < ActiveLen() ==> ActiveSeq()[k] != ""
+//@ axiom[reveal=normalizeLicense] forall k int {ExceptionSeq()[k]} :: 0 <= k && k < ExceptionLen() ==> ExceptionSeq()[k] != ""
+//@ axiom[reveal=normalizeLicense] forall k int {DeprecatedSeq()[k]} :: 0 <= k && k < DeprecatedLen() ==> DeprecatedSeq()[k] != ""
 //@ axiom forall x string, y string {EqualFold(x, y)} :: EqualFold(x, y) ==> EqualFold(y, x)
 //@ axiom forall x string, y string, z string {EqualFold(x, y), EqualFold(y, z)} :: EqualFold(x, y) && EqualFold(y, z) ==> EqualFold(x, z)
 // '+' has no case-folding partner: strings equal under simple folding contain it or not together (assumed about strings.EqualFold)
@@ -531,9 +531,9 @@ package spdxexp
 //@ axiom forall v string {isLicId(v)} :: isLicId(v) <==> (inRe(v, "idch+") && !HasPrefix(v, "LicenseRef-") && !HasPrefix(v, "DocumentRef-"))
 // table hypotheses (ground-evaluated on every run: idsAreIDCH, noRefPrefix): listed ids consist of id characters (a
 // deprecated id may end in '+': such an entry is never a token value) and none starts with a reference prefix
-//@ axiom forall k int {ActiveSeq()[k]} :: 0 <= k && k < ActiveLen() ==> isLicId(ActiveSeq()[k])
-//@ axiom forall k int {DeprecatedSeq()[k]} :: 0 <= k && k < DeprecatedLen() && !Contains(DeprecatedSeq()[k], "+") ==> isLicId(DeprecatedSeq()[k])
-//@ axiom forall k int {ExceptionSeq()[k]} :: 0 <= k && k < ExceptionLen() ==> isIdName(ExceptionSeq()[k])
+//@ axiom[reveal=^lemmas$] forall k int {ActiveSeq()[k]} :: 0 <= k && k < ActiveLen() ==> isLicId(ActiveSeq()[k])
+//@ axiom[reveal=^lemmas$] forall k int {DeprecatedSeq()[k]} :: 0 <= k && k < DeprecatedLen() && !Contains(DeprecatedSeq()[k], "+") ==> isLicId(DeprecatedSeq()[k])
+//@ axiom[reveal=^lemmas$] forall k int {ExceptionSeq()[k]} :: 0 <= k && k < ExceptionLen() ==> isIdName(ExceptionSeq()[k])
 //@ pred wfLeafT(t Tree) = ite(isTLic(t), isLicId(tlId(t)) && ite(tlHasExc(t), isIdName(tlExc(t)), tlExc(t) == ""), isTRef(t) && isIdName(trRef(t)) && ite(trHasDoc(t), isIdName(trDoc(t)), trDoc(t) == ""))
 //@ fn wfLeaf(t Tree) bool
 //@ axiom forall t Tree {wfLeaf(t)} :: wfLeaf(t) <==> wfLeafT(t)
